@@ -216,7 +216,9 @@ def _judge_angles(rec, W, got_tt, got_phi, refs, path, dtype, label, case_sub):
         tol = base + (1.01 * float(r['tilt']) if path == 'orthogonal' else 0.0)
         if not math.isfinite(g2) or abs(hp.mpf(g2) - r['two_theta']) > tol:
             err = float(abs(hp.mpf(g2) - r['two_theta'])) if math.isfinite(g2) else float('inf')
-            W.add(SITE, f'two_theta_mismatch_{path}_path', err / tol,
+            # label the one recognisable wrong construction (beam moved along gravity instead of against it)
+            lowered = math.isfinite(g2) and abs(hp.mpf(g2) - r['two_theta_lowered']) <= tol
+            W.add(SITE, f'two_theta_uses_lowered_beam_{path}_path' if lowered else f'two_theta_mismatch_{path}_path', err / tol,
                   f'2theta={g2!r}, documented construction {float(r["two_theta"])!r} (gravity-free {float(r["two_theta_free"])!r}); '
                   f'|diff|={err:.3e} > tol {tol:.2e}', **sub)
         rho = r['rho']
@@ -389,7 +391,8 @@ def run_case(case, rec):
             tol = 1.01 * turn + 2e-12
             d = abs(got_tt[key] - tt0[key])
             if d > tol:
-                W.add(SITE, 'discontinuous_in_tilt', d / tol,
+                lowered = abs(hp.mpf(got_tt[key]) - r['two_theta_lowered']) <= 1e-12
+                W.add(SITE, 'discontinuous_in_tilt_lowered_beam' if lowered else 'discontinuous_in_tilt', d / tol,
                       f'tilting b1 by {turn:.3e} rad changes 2theta by {d:.3e} rad ({tt0[key]!r} at tilt 0 -> {got_tt[key]!r}); '
                       f'documented construction allows at most the tilt itself', lam=LAMBDAS[i], det=k, tilt_rad=turn, **case_sub)
     W.emit(rec)
